@@ -8,6 +8,7 @@ def run(ctx, rep):
     rep.rule = ("histories of 2-5 fits of different estimators sharing datafit / penalty classes in one process; "
                 "byte-equality of X, y, weights before/after; refit of the same object; last fit compared with a fresh "
                 "object; IterativeReweightedL1 fitted twice")
+    est_common.run_cache(ctx, rep)
     est_common.run_purity(ctx, rep)
     est_common.run_reweighted(ctx, rep)
 
